@@ -18,7 +18,7 @@ def step (st : St) (j : Json) : Except String (St × Drv.Out) := do
   | "msg" =>
     let m ← clientMsg (← fld j "msg")
     let impl ← asList serverMsg (← fld j "out")
-    let before := listing st.c
+    let before := st.c.evs   -- the retained set (order is irrelevant to the monitors)
     let (c', r) := cacheReply st.c m
     let mut o : Drv.Out := { nontrivial := true }
     o := o.tag s!"cache.{match m with | .event _ => "EVENT" | .req _ _ => "REQ" | .count _ _ => "COUNT" | .close _ => "CLOSE" | .auth _ => "AUTH"}"
